@@ -147,8 +147,9 @@ def oracle(sc):
         if refusals[0] != len(sc.writes) - 1:
             return ('a write call was made after the transport refused one', refusals[0] + 1, len(sc.writes))
         kind, unsent = err_unsent(sc.errors[0], sc.writes)
-        want_kind = 1 if sc.writes[-1][1][0] == 'x' else 0
-        if kind != want_kind:
+        last = tuple(sc.writes[-1][1])
+        want_kind = 1 if last[0] == 'x' else (None if last == ('r', None) else 0)      # an answer that is no count: an error, the property does not say which
+        if want_kind is not None and kind != want_kind:
             return ('wrong error for a refused write', ['SessionCloseError', 'the transport exception'][want_kind], type(sc.errors[0]).__name__)
         if kind == 0:
             if not unsent:
@@ -199,6 +200,7 @@ def small_specs():
         S([[A1, A2], [B1]], answers=[['a', 5], ['r', 0]]),                      # refused inside the first frame
         S([[A1], [B1], [C1]], answers=[['a', 9999], ['x']]),                    # the transport raises at the second frame
         S([[A2, A1], [B2]], base=0, answers=[['a', 3], ['a', 3], ['r', -1]]),   # negative count
+        S([[A1, A2], [B2]], answers=[['a', 4], ['r', None]]),                   # a write call answered with None (no count) after a short write
         S([[A1], [B1], [C1]], base=0),                                          # three submitters
         S([[A1, A2]], pending=1),                                               # _hello_pending: first frame end-of-message
     ]
@@ -216,7 +218,7 @@ def gen_spec(rng):
         if style == 'tiny': answers = answers[:40]
     if style == 'fail':
         answers = answers[:rng.randint(0, min(len(answers), 3 * total))]
-        answers.append(rng.choice([['r', 0], ['r', -1], ['r', -7], ['x']]))
+        answers.append(rng.choice([['r', 0], ['r', -1], ['r', -7], ['r', None], ['x']]))
     readys = [int(rng.random() < 0.5) for _ in range(rng.choice([0, 0, 1, 3, 5]))]
     base = rng.choice([0, 1])
     return dict(base=base, pending=0, progs=progs, readys=readys, answers=answers,
